@@ -128,9 +128,9 @@ def bound_consistency_algorithm(
             if shr_domain_min > shr_domain_max:
                 statistics[STATS_IDX_PROPAGATOR_INCONSISTENCY_NB] += 1
                 return PROBLEM_INCONSISTENT
-            if shr_domain_min == shr_domain_max:
-                events |= EVENT_MASK_GROUND
             if events != 0:
+                if shr_domain_min == shr_domain_max:
+                    events |= EVENT_MASK_GROUND
                 shr_domains_changes = True
                 add_propagators(
                     triggered_propagators,
